@@ -23,7 +23,6 @@ sufficient decrease.
 
 import logging
 import warnings
-from copy import copy
 from typing import Optional
 
 import numpy as np
@@ -252,6 +251,9 @@ def line_search(
     f_m1 = f0
     dphi_m1 = dphi0
     _iter = 0
+    # lowest trial so far: a step is only returned if it improves on f0
+    best_stp: Optional[float] = None
+    best_f: float = f0
 
     if not is_use_minpack2:
         # careful, there is an issue in the DCSRRCH.__call__ function. It returns
@@ -291,13 +293,13 @@ def line_search(
             )
 
         if task[:2] == b"FG":
-            stp_old: float = copy(steplength_0)
-            f_m1_old: float = copy(f_m1)
             steplength_0 = steplength
             # rounding in x0 + steplength * d may leave the box by one ulp
             f_m1, dphi_m1 = sf.fun_and_grad(np.clip(x0 + steplength * d, lb, ub))
             dphi_m1 = dphi_m1.dot(d)
-            best_stp = steplength if f_m1 < f_m1_old else stp_old
+            if f_m1 < best_f:
+                best_f = f_m1
+                best_stp = steplength
         else:
             break
         _iter += 1
@@ -311,6 +313,10 @@ def line_search(
             return None
 
     if task[:4] != b"CONV" and task[:4] != b"WARN":
+        return None
+
+    # no trial improved on the starting value: the search failed
+    if best_stp is None:
         return None
 
     steplength = best_stp
